@@ -1,6 +1,7 @@
 import Model.Rules
 import Model.Checker
 import Model.Guard
+import Model.Migration
 /-!
 # The Python primitives that the translated rule bodies are made of
 
@@ -27,6 +28,10 @@ inductive V where
   | pattern (r : Re)             -- a compiled regular expression
   | attrs (kvs : List (List Char × AttrVal))   -- an attribute dictionary element of a rule-based policy
   | obj (fields : List (String × V))           -- an object seen through its attribute dictionary (a policy being built)
+  | migset (orders : List Nat)                 -- a migration set: the order numbers of its migrations as declared
+  | world (st : Migration.MState) (k : Nat) (f : Migration.Fault) (raised : Bool)
+                                               -- what the effects of a migration request act on: the store's state, the
+                                               -- number of steps executed so far, the fault plan, whether a step raised
 
 instance : Inhabited V := ⟨.py .none⟩
 
@@ -48,6 +53,8 @@ def truth : V → Bool
   | .pattern _ => true
   | .attrs kvs => !kvs.isEmpty
   | .obj _ => true
+  | .migset _ => true
+  | .world _ _ _ _ => true
 
 /-- the answer of `satisfied` as the checkers see it: its truthiness, or the exception -/
 def toR (m : M) : R := m.map truth
@@ -505,5 +512,56 @@ def cEmptyTuple : M := .ok (.seq [])
 /-- `isinstance(x, (dict, Rule))`: an attribute dictionary or a rule object -/
 def isRuleLikeM (a : M) : M :=
   bindM a fun x => ofBool (match x with | .rule _ => true | .attrs _ => true | .py (.dict _) => true | _ => false)
+
+/-! ### the migration runner: effects on an explicit world value -/
+
+/-- `self.migrations()`: the migration objects of the set (each represented by its order number), as declared -/
+def migrationsM (self : M) : M :=
+  bindM self fun s => match s with
+    | .migset orders => .ok (.seq (orders.map fun (o : Nat) => V.py (.int (o : Int))))
+    | _ => raiseM
+
+/-- the order numbers of a sequence of migration objects -/
+def natsOf : List V → Option (List Nat)
+  | [] => some []
+  | .py (.int i) :: rest => if 0 ≤ i then (natsOf rest).map (i.toNat :: ·) else Option.none
+  | _ :: _ => Option.none
+
+open Migration in
+/-- `sorted(xs, key=lambda x: x.order, reverse=r)` over migration objects -/
+def sortedByOrderM (a rev : M) : M :=
+  bindM a fun x => bindM rev fun r => match x with
+    | .seq xs => (match natsOf xs with
+      | some ns => .ok (.seq ((if truth r then (sortAsc ns).reverse else sortAsc ns).map fun (o : Nat) => V.py (.int (o : Int))))
+      | Option.none => raiseM)
+    | _ => raiseM
+
+/-- `m.order` of a migration object (represented by its order number) -/
+def orderM (m : M) : M := m
+
+/-- `self.last_applied()`: reads the recorded version -/
+def lastAppliedM (w : M) : M :=
+  bindM w fun w => match w with | .world st _ _ _ => cInt st.last | _ => raiseM
+
+open Migration in
+/-- `m.up()` / `m.down()`: the step body - raises when the fault plan says so (before having any effect), otherwise its
+schema effect is in place; either way the invocation is on the trace.  A raise ends the request: the world is returned. -/
+def stepBodyM (d : Dir) (m w : M) (k : V → M) : M :=
+  bindM m fun m => bindM w fun w => match m, w with
+    | .py (.int i), .world st n f _ =>
+      let o := i.toNat
+      if f == .body n then .ok (.world { st with trace := st.trace ++ [(d, o)] } n f true)
+      else k (.world { st with trace := st.trace ++ [(d, o)],
+                               schema := match d with | .up => addSchema o st.schema | .down => delSchema o st.schema } n f false)
+    | _, _ => raiseM
+
+open Migration in
+/-- `self.save_applied_number(x)`: records the version - or raises when the fault plan says so -/
+def saveAppliedM (x w : M) (k : V → M) : M :=
+  bindM x fun x => bindM w fun w => match x, w with
+    | .py (.int i), .world st n f _ =>
+      if f == .save n then .ok (.world st n f true)
+      else k (.world { st with last := i.toNat } (n + 1) f false)
+    | _, _ => raiseM
 
 end Vakt.PyPrim
